@@ -74,11 +74,10 @@ func (c ChainCase) viaLines(ps []string) []string {
 	return out
 }
 
-func runChain(c ChainCase) kit.Verdict {
+func runChain(c ChainCase) (v kit.Verdict) {
 	if c.Wire {
 		return runChainWire(c)
 	}
-	var v kit.Verdict
 	stacks := make([]*fifo.Group, c.Stacks)
 	ps := make([]string, c.Stacks)
 	for i := range stacks {
@@ -89,7 +88,8 @@ func runChain(c ChainCase) kit.Verdict {
 		}
 		ps[i] = p
 	}
-	distinctPseudonyms(ps, &v)
+	// reported after the behavioural failures it causes
+	defer func() { distinctPseudonyms(ps, &v) }()
 
 	_, maj, min := protoOf(Case{Proto: c.Proto})
 	visited := map[int]bool{}
